@@ -523,6 +523,7 @@ func main() {
 		"unhooked_map_sites":            rst.MapSitesUnhooked,
 		"chan_sends_hooked":             rst.ChanSendsHooked,
 		"chan_ops_unhooked":             rst.ChanOpsUnhooked,
+		"sync_imports_rewritten":        rst.SyncImportsRewritten,
 		"package_vars_reset":            rst.PkgVarsReset,
 		"package_vars_not_reset":        rst.PkgVarsNotReset,
 		"violation_signatures":          violCount,
